@@ -38,12 +38,14 @@ LEVEL = "fault_enumeration"
 ISOLATION = "subprocess"
 RULE = (
     "faults sub-checks: a case is (writer, content seed, destination absent / pre-existing, optional formatting failure). "
-    "Writers: atomic_write directly (plain, .gz, .bz2), Alignment / ArrayAlignment / SequenceCollection / new-type "
+    "Writers: atomic_write directly (plain, .gz, .bz2; also with tmpdir= naming an existing directory of the caller that holds another file, "
+    "and with tmpdir= the destination's own directory, which holds an unrelated file: those entries of the caller must still be there with their bytes after "
+    "every completed, failed or killed write, and after a handled failure the caller's directory holds nothing else), Alignment / ArrayAlignment / SequenceCollection / new-type "
     "SequenceCollection .write (fasta, phylip, json, gz), PhyloNode.write (newick, xml, json), Table.write (tsv, csv, tsv.gz, "
     "json, pickle), DictArray.write, ScoredTreeCollection.write. zip targets (faults_zip, and in faults_all_writers): "
     "atomic_write('x.txt.zip') and object writers given an 'x.<fmt>.zip' path (the path names a whole archive: old bytes or a "
     "sound archive with the complete new content), and atomic_write(member, in_zip=archive) in the three calling forms of the "
-    "library tests / docstring, its non-context form (write(); close()) and open_('x.txt.zip', 'wt') (one member is added: the "
+    "library tests / docstring, the first of them also with tmpdir= a directory of the caller, its non-context form (write(); close()) and open_('x.txt.zip', 'wt') (one member is added: the "
     "archive, absent or pre-existing with another member, must stay absent / a sound archive holding the old member unchanged, "
     "the new member absent or complete; judged with ZipFile.testzip / namelist / read). Formatting failures: an exception in "
     "the with block (atomic_write, open_), an unknown format (fasta writers), a formatter argument that is refused (phylip, "
@@ -68,6 +70,10 @@ ASSUMPTIONS = [
     "zip, whole archive: atomic_write('x.zip') without in_zip stages a new archive and renames it over the destination (tests/test_util/test_io.py::test_writes_compressed_formats), so the destination is the old bytes or a sound archive with exactly the new content; members of a pre-existing archive are not expected to survive",
     "zip, member added (in_zip=, open_ in write mode: test_atomic_write_noncontext, test_aw_zip_from_path, test_open_writes_zip, atomic_write docstring): all-or-nothing applies to the archive as the path being written: it stays a sound archive holding every old member with its bytes, the new member is absent or complete, and an archive that did not exist does not appear unless it holds the complete member (an empty or unreadable archive is 'absence not left untouched')",
     "object writers (Alignment.write etc.) are nowhere documented or tested to accept a .zip path: one that refuses it without any injected fault (aln.write('x.fasta.zip'), tree.write('x.nwk.zip')) is not a violation of this property, but the refusal is a handled failure and is judged as one (destination untouched, no temporaries); coverage class zip-write-refused",
+    "atomic_write(path, tmpdir=d): the docstring says 'directory where temporary file will be created' and the constructor refuses a directory that does not exist, so d is an existing directory "
+    "owned by the caller; no test of the library passes tmpdir. The property ('exactly the new content', 'no temporary files', 'previous content untouched') is read as: the write may create and must remove "
+    "its own temporaries inside d, and d itself and every other entry in it (the destination included when d is the destination's directory) are not the write's to remove. "
+    "d is on the same file system as the destination (a rename across file systems is not atomic and not claimed)",
     "non-context use (aw.write(); aw.close()) offers no way to abandon a write, so temporaries are judged only for faults raised inside close()",
     "a formatting failure is any exception raised while the content is produced, by the library (unknown format, refused argument, unserialisable value) or by a callable / object the caller supplied (Table.write writer=, a tree without newick); which exception type the caller sees is not judged",
     "resume: inputs that already have a completed record must not be processed again; records that were not-completed may be processed again (directory store) or skipped (sqlite store), as each store's membership test documents",
@@ -193,6 +199,8 @@ def make_writer(spec, seed):
                 return atomic_write(path, mode="wt")
             if kind in ("atomic.inzip", "atomic.inzip.noctx"):  # test_atomic_write_noncontext: path beside the archive
                 return atomic_write(path[: -len(".zip")], in_zip=path, mode="w")
+            if kind == "atomic.inzip.tmpdir":  # the same with the temporary file in a directory of the caller
+                return atomic_write(path[: -len(".zip")], in_zip=path, mode="w", tmpdir=os.path.join(os.path.dirname(path), CALLER_DIR))
             if kind == "atomic.inzip.bool":  # test_aw_zip_from_path: archive name inferred from path
                 return atomic_write(path, in_zip=True, mode="w")
             if kind == "atomic.inzip.rel":  # the form of the atomic_write docstring: member path relative to the archive
@@ -220,11 +228,16 @@ def make_writer(spec, seed):
 
         return fname, w
     if kind.startswith("atomic"):
-        suffix = {"atomic.plain": "out.txt", "atomic.gz": "out.txt.gz", "atomic.bz2": "out.txt.bz2"}[kind]
+        suffix = {"atomic.plain": "out.txt", "atomic.gz": "out.txt.gz", "atomic.bz2": "out.txt.bz2", "atomic.tmpdir": "out.txt", "atomic.tmpdir.own": "out.txt.gz"}[kind]
         text = "".join(f"line {i} of {seed}\n" for i in range(1 + seed % 40))
 
         def w(path):
-            with atomic_write(path, mode="wt") as f:
+            kw = {}
+            if kind == "atomic.tmpdir":  # tmpdir: "directory where temporary file will be created": a directory of the caller
+                kw["tmpdir"] = os.path.join(os.path.dirname(path), CALLER_DIR)
+            elif kind == "atomic.tmpdir.own":  # ... which may be the directory of the destination itself
+                kw["tmpdir"] = os.path.dirname(path)
+            with atomic_write(path, mode="wt", **kw) as f:
                 f.write(text)
                 if bad:
                     raise _with_block_exception(spec)
@@ -299,8 +312,19 @@ WRITERS = [
     "tree.nwk", "tree.json", "tree.xml",
     "table.tsv", "table.csv", "table.tsv.gz", "table.json", "table.pickle",
     "dictarray.tsv", "treecoll",
+    "atomic.tmpdir", "atomic.tmpdir.own",
 ]
+# writers that hand atomic_write a directory of their own for the temporary file (tmpdir=): entries (relative to the run
+# directory) that exist before the write and must still be there, with their bytes, whatever happens to the write
+CALLER_DIR = "scratch"
+CALLER_ENTRY = b"a file of the caller that has nothing to do with the write\n"
+SIDE_ENTRIES = {
+    "atomic.tmpdir": {f"{CALLER_DIR}/other.txt": CALLER_ENTRY},
+    "atomic.tmpdir.own": {"unrelated.txt": CALLER_ENTRY},
+    "atomic.inzip.tmpdir": {f"{CALLER_DIR}/other.txt": CALLER_ENTRY},
+}
 CAN_FAIL_FORMAT = {
+    "atomic.tmpdir", "atomic.tmpdir.own",
     "atomic.plain", "atomic.gz", "aln.fasta", "arr.fasta", "coll.fasta", "newcoll.fasta",
     "aln.fasta.gz", "aln.phylip", "arr.paml", "aln.json", "coll.json", "newcoll.json", "tree.json",
     "table.tsv", "table.csv", "table.tsv.gz", "table.json", "table.pickle", "dictarray.tsv", "treecoll",
@@ -315,6 +339,7 @@ ZIP_WRITERS = {
     "atomic.inzip.bool": ("append", "out.txt.zip", "out.txt", "keep.txt"),
     "atomic.inzip.rel": ("append", "out.zip", "out/seqs.tsv", "out/keep.tsv"),
     "atomic.inzip.noctx": ("append", "out.txt.zip", "out.txt", "keep.txt"),
+    "atomic.inzip.tmpdir": ("append", "out.txt.zip", "out.txt", "keep.txt"),
     "open_.zip": ("append", "out.txt.zip", "out.txt", "keep.txt"),
     "aln.fasta.zip": ("replace", "out.fasta.zip", None, "keep.txt"),
     "aln.json.zip": ("replace", "out.json.zip", None, "keep.txt"),
@@ -323,7 +348,7 @@ ZIP_WRITERS = {
     "tree.nwk.zip": ("replace", "out.nwk.zip", None, "keep.txt"),
     "dictarray.tsv.zip": ("replace", "out.tsv.zip", None, "keep.txt"),
 }
-ZIP_CAN_FAIL_FORMAT = {"atomic.zip", "atomic.inzip", "atomic.inzip.rel", "open_.zip"}
+ZIP_CAN_FAIL_FORMAT = {"atomic.zip", "atomic.inzip", "atomic.inzip.rel", "open_.zip", "atomic.inzip.tmpdir"}
 ZIP_KEEP = b"OLD MEMBER kept from an earlier run\n"
 
 
@@ -431,6 +456,10 @@ def _faults(s, case, root):
         "new": None,
         # without a with block there is no way to abandon the write: temporaries are judged only for faults inside close()
         "noctx": writer.endswith(".noctx"),
+        # entries of the caller (tmpdir= writers) that must survive
+        "side": SIDE_ENTRIES.get(writer, {}),
+        # the directory passed as tmpdir is the one that holds the destination
+        "tmpdir_is_parent": writer == "atomic.tmpdir.own",
     }
 
     def fresh_dir(i):
@@ -440,6 +469,10 @@ def _faults(s, case, root):
         if case["existing"]:
             with open(p, "wb") as f:
                 f.write(OLD)
+        for rel, data in tgt["side"].items():
+            os.makedirs(os.path.dirname(os.path.join(d, rel)), exist_ok=True)
+            with open(os.path.join(d, rel), "wb") as f:
+                f.write(data)
         return d, p
 
     # dry run: boundaries and the complete new content
@@ -468,8 +501,9 @@ def _faults(s, case, root):
         if code != 0:
             s.fail(f"{tag}/unfaulted-write-raises", f"{writer}: {info}")
             return
+        _judge_side(s, d0, tgt, f"{writer} unfaulted write, {dest}")
         if not os.path.exists(p0):
-            s.fail(f"{tag}/unfaulted-write-no-file", f"{writer}: {os.listdir(d0)}")
+            s.fail(LOST_WITH_DIR if tgt["tmpdir_is_parent"] else f"{tag}/unfaulted-write-no-file", f"{writer} unfaulted write, {dest}: no destination afterwards; the run directory holds {_listing(d0)}")
             return
         if tgt["zip"]:
             members, why = zip_state(p0)
@@ -486,7 +520,7 @@ def _faults(s, case, root):
                 tgt["new"] = sorted(members.values())  # the member name is a random uuid: contents are compared
         else:
             tgt["new"] = read_logical(p0)
-        s.check(sorted(os.listdir(d0)) == [fname], f"{tag}/unfaulted-write-leftovers", f"{writer}: {os.listdir(d0)}")
+        s.check(not _leftovers(d0, tgt), f"{tag}/unfaulted-write-leftovers", f"{writer}: {_listing(d0)}")
     s.cls(f"writer:{writer}", "existing" if case["existing"] else "absent", f"K={min(K, 40)}")
     evals = 1
     # the commit point: first rename/replace of the run; for an append into an archive, the opening of the archive
@@ -540,11 +574,48 @@ def _judge(s, sig, d, p, tgt, handled, fault_in_rmtree, what):
             s.fail(sig + "/destination-appeared", what)
     else:
         if existing:
-            s.fail(sig + "/destination-lost", f"{what}: the pre-existing destination is gone; directory: {sorted(os.listdir(d))}")
+            # (one signature when the destination went with the caller's directory: same root cause at every boundary)
+            s.fail(LOST_WITH_DIR if tgt["tmpdir_is_parent"] else sig + "/destination-lost", f"{what}: the pre-existing destination is gone; directory: {_listing(d)}")
     if handled and not fault_in_rmtree:
-        extra = sorted(x for x in os.listdir(d) if x != fname)
+        extra = _leftovers(d, tgt)
         if extra:
             s.fail(sig + "/temporary-left-behind", f"{what}: directory also holds {extra}")
+    _judge_side(s, d, tgt, what)
+
+
+LOST_WITH_DIR = "caller-tmpdir/destination-removed-with-directory-of-caller"
+
+
+def _listing(d):
+    """every entry below d (relative paths), or a note that d itself is gone"""
+    if not os.path.isdir(d):
+        return "<the directory itself has been removed>"
+    out = []
+    for top, dirs, files in os.walk(d):
+        rel = os.path.relpath(top, d)
+        out.extend(os.path.normpath(os.path.join(rel, x)) + ("/" if x in dirs else "") for x in dirs + files)
+    return sorted(out)
+
+
+def _leftovers(d, tgt):
+    """entries below d that are neither the destination nor an entry the caller had put there"""
+    if not os.path.isdir(d):
+        return []
+    side = tgt["side"]
+    keep = {tgt["fname"]} | set(side) | {os.path.dirname(rel) + "/" for rel in side if os.path.dirname(rel)}
+    return [x for x in _listing(d) if x not in keep]
+
+
+def _judge_side(s, d, tgt, what):
+    """tmpdir= writers: the directory the caller supplied for the temporary file, and everything else the caller keeps
+    there, is the caller's: it must be there afterwards, whether the write completed, failed or died.  One root cause,
+    so one signature whatever the writer and the faulted call"""
+    for rel, data in tgt["side"].items():
+        q = os.path.join(d, rel)
+        if not os.path.isfile(q):
+            s.fail("caller-tmpdir/entry-of-caller-removed", f"{what}: {rel!r}, which the caller kept in the directory passed as tmpdir, is gone; the run directory now holds {_listing(d)}")
+        elif open(q, "rb").read() != data:
+            s.fail("caller-tmpdir/entry-of-caller-changed", f"{what}: {rel!r} no longer holds the caller's bytes")
 
 
 def _judge_archive(s, sig, p, tgt, what):
@@ -589,7 +660,7 @@ def enum_fault_cases(tier):
         # with an absent destination only for the writers enumerated that way from the start (the fixed replays name them)
         for ex in (False, True) if w in ("atomic.plain", "atomic.gz", "aln.fasta", "arr.fasta", "coll.fasta", "newcoll.fasta", "atomic.inzip") else (True,):
             out.append({"writer": w, "seed": 7, "existing": ex, "bad_format": True})
-    for w in ("atomic.plain", "atomic.gz", "atomic.zip", "open_.zip"):
+    for w in ("atomic.plain", "atomic.gz", "atomic.zip", "open_.zip", "atomic.tmpdir"):
         out.append({"writer": w, "seed": 7, "existing": True, "bad_format": True, "bad_exc": "KeyboardInterrupt"})
     return out
 
@@ -949,7 +1020,7 @@ KNOWN_PREDICATES = {}
 
 META = {
     "technique": "exhaustive fault enumeration: every file-system call boundary of every writer, discovered by a profiled dry run, is faulted (OSError raised / process killed in a forked child); every prefix of an apply_to run, and every boundary inside one store write, is killed and resumed; contents generated by Hypothesis",
-    "level_text": "For each of 23 writer/format combinations and 12 zip targets (whole archives and members added to an archive, absent or pre-existing with another member), with the destination absent and pre-existing, every C-level file-system call made during the write (typically 12-40) is turned into a raised OSError and into real process death, and the directory is inspected from the parent: old-or-new destination (archives: sound, old members kept, new member absent or complete), no temporaries after handled failures. Formatting failures are injected for every writer kind (unknown format, refused formatter argument, unserialisable info / params / cells, raising writer callable, tree without newick, exception in the with block). apply_to runs over 2-8 inputs into both store kinds are killed before every store write, and at every boundary inside one write of a directory store, and resumed in append mode; records, contents and validate() are compared with an uninterrupted run.",
+    "level_text": "For each of 25 writer/format combinations (atomic_write also with a caller-supplied tmpdir, whose other entries must survive) and 13 zip targets (whole archives and members added to an archive, absent or pre-existing with another member), with the destination absent and pre-existing, every C-level file-system call made during the write (typically 12-40) is turned into a raised OSError and into real process death, and the directory is inspected from the parent: old-or-new destination (archives: sound, old members kept, new member absent or complete), no temporaries after handled failures. Formatting failures are injected for every writer kind (unknown format, refused formatter argument, unserialisable info / params / cells, raising writer callable, tree without newick, exception in the with block). apply_to runs over 2-8 inputs into both store kinds are killed before every store write, and at every boundary inside one write of a directory store, and resumed in append mode; records, contents and validate() are compared with an uninterrupted run.",
     "level_note": "Boundaries are those visible to sys.setprofile as C calls (posix.*, _io.open, io object write/flush/close/__exit__); faults inside C code that makes several system calls (e.g. one BufferedWriter.flush, one sqlite INSERT) are one boundary. Power-loss durability is out of scope.",
     "design_ref": "DESIGN.md section 1, C19",
 }
